@@ -100,6 +100,8 @@ def run_C05(tier, seed, t0):
         for d in (['fwd', 'bwd', 'ctx', 'abs', 'al-fwd', 'al-bwd'] if name in LABELLED else (['-', 'fwd', 'bwd'] if name == 'li' else ['-'])):
             for c in (False, True):
                 specs.append(('harness.pseudo', 'pseudo_task', (name, d, c, li_bits, gap_bits)))
+    # several pseudo-instructions in one program, register operands a mix of alias constants and literals
+    specs += [('harness.pipe', 'alias_program_task', (k, False)) for k in (2, 3)]
     res = pmap(specs)
     return finish('C05', tier, seed, res, t0,
                   bounds=dict(pseudo_instructions=len(ALL), registers='all 32 x 32 (symbolic aliases)',
@@ -452,6 +454,9 @@ def run_C19(tier, seed, t0):
     for v in range(4):
         for extra in (1, 2, 511, 1023, 1024, 1025):
             specs.append(('harness.dfu', 'dfu_task', ('C19', 'capacity+%d' % extra, v, 0, None, 'one')))
+    for v in range(4):
+        # the same through a pipe: the reported file size (0) says nothing about the amount of data
+        specs.append(('harness.dfu', 'dfu_task', ('C19', 'capacity+1:pipe', v, 0, None, 'one')))
     for L in ([1, 1025] if tier != 'thorough' else [1, 2, 1023, 1024, 1025, 2048, 2049, 3072, 3073]):
         specs.append(('harness.dfu', 'dfu_task', ('C19', L, L % 4, K, 'single', 'one')))
     res = pmap(specs)
